@@ -75,7 +75,7 @@ claim("C04",
       "DESIGN.md §6 C04")
 claim("C18",
       "Proof of the local framing logic of the compression and encryption wrappers for every byte string (marker bytes, size threshold, unknown compressor id "
-      "rejected, version byte, length guard, all index/slice expressions in bounds) that phase and version text forms parse back, that the zstd decoder is built from non-limiting options, and that the wire form of a resource's metadata is built field by field (scalar fields as they are, version and phase as text, both timestamps always present).",
+      "rejected, version byte, length guard, all index/slice expressions in bounds) that phase and version text forms parse back, that the zstd decoder is built from non-limiting options, and that the wire form of a resource's metadata is built field by field (scalar fields as they are, version and phase as text, both timestamps always present) and read back the same way by NewMetadataFromProto (scalars as they are, version and phase through their parsers, timestamps through the well-known-type accessor).",
       COMMON + "zstd, AES-GCM and the underlying marshaler are used through assumed interface contracts; protobuf/YAML codecs, metadata<->proto mapping, version text "
       "forms are under contract (ParseVersion parses back what Version.String writes, over an assumed decimal-text specification of strconv; finding F13, versions >= 2^63, repaired); timestamps and decoder totality of third-party libraries are not under contract.",
       "DESIGN.md §6 C18")
